@@ -112,6 +112,7 @@ type (
 		chain             Ledger
 		bQueue            *bqueue.Queue[*block.Block]
 		bSyncQueue        *bqueue.Queue[*block.Block]
+		bSyncQueueRun     sync.Once
 		syncHFetcherQueue *bqueue.Queue[*block.Header]
 		syncBFetcherQueue *bqueue.Queue[*block.Block]
 		bFetcherQueue     *bqueue.Queue[*block.Block]
@@ -917,6 +918,10 @@ func (s *Server) handleBlockCmd(p Peer, block *block.Block) error {
 		return nil
 	}
 	if s.stateSync.IsActive() {
+		if s.stateSync.NeedBlocks() {
+			// P2P state exchange: nothing else drains this queue.
+			s.bSyncQueueRun.Do(func() { go s.bSyncQueue.Run() })
+		}
 		return s.bSyncQueue.Put(block)
 	}
 	return s.bQueue.Put(block)
